@@ -89,7 +89,8 @@ func (c *cursor) uvarint() uint64 {
 func (c *cursor) field() []byte { return c.take(c.uvarint()) }
 
 // parseMsgStream reads the framing of a WKMB stream (no semantic checks, no checksum check);
-// ok = the framing is complete and nothing is left before the 4-byte trailer.
+// ok = the framing is complete and nothing is left before the 4-byte trailer. When it is
+// not, the sections (and rows) read before the defect are still returned.
 func parseMsgStream(stream []byte) (rawMsgSnapshot, bool) {
 	var s rawMsgSnapshot
 	if len(stream) < 16 {
@@ -100,10 +101,10 @@ func parseMsgStream(stream []byte) (rawMsgSnapshot, bool) {
 	c.u16()
 	s.HashSlot = c.u16()
 	n := c.u32()
-	if c.bad || n > 64 {
+	if c.bad {
 		return s, false
 	}
-	for i := uint32(0); i < n; i++ {
+	for i := uint32(0); i < n && i < 64; i++ {
 		var ch rawChan
 		ch.Key = string(c.field())
 		ch.ID = string(c.field())
@@ -119,21 +120,25 @@ func parseMsgStream(stream []byte) (rawMsgSnapshot, bool) {
 			ch.Sys = append(ch.Sys, rawEntry{k, v})
 		}
 		ch.Count = c.uvarint()
-		if c.bad || ch.Count > 1<<20 {
-			return s, false
-		}
-		for j := uint64(0); j < ch.Count; j++ {
-			seq := c.u64()
-			h := c.field()
-			p := c.field()
-			ch.Rows = append(ch.Rows, rawRow{seq, h, p})
-		}
 		if c.bad {
 			return s, false
 		}
 		s.Chans = append(s.Chans, ch)
+		cur := &s.Chans[len(s.Chans)-1]
+		for j := uint64(0); j < ch.Count && j < 1<<16; j++ {
+			seq := c.u64()
+			h := c.field()
+			p := c.field()
+			if c.bad {
+				return s, false
+			}
+			cur.Rows = append(cur.Rows, rawRow{seq, h, p})
+		}
+		if ch.Count >= 1<<16 {
+			return s, false
+		}
 	}
-	return s, !c.bad && len(c.b) == 0
+	return s, !c.bad && len(c.b) == 0 && n < 64
 }
 
 func appendField(dst, b []byte) []byte {
